@@ -694,25 +694,11 @@ func (s *Shard) validateSeriesAndFields(points []models.Point) ([]models.Point, 
 		name := p.Name()
 		mf := engine.MeasurementFields(name)
 
-		// Check with the field validator.
-		if err := s.options.FieldValidator.Validate(mf, p); err != nil {
-			switch err := err.(type) {
-			case PartialWriteError:
-				if reason == "" {
-					reason = err.Reason
-				}
-				dropped += err.Dropped
-				atomic.AddInt64(&s.stats.WritePointsDropped, int64(err.Dropped))
-			default:
-				return nil, nil, err
-			}
-			continue
-		}
-
-		points[j] = points[i]
-		j++
-
-		// Create any fields that are missing.
+		// Find the fields that are missing before validating the point. A field that
+		// another write creates after this is then seen by the validator, and one that
+		// is created after validation is re-checked by CreateFieldIfNotExists; checking
+		// in the other order lets a point of a conflicting type through in between.
+		nCreate := len(fieldsToCreate)
 		iter.Reset()
 		for iter.Next() {
 			fieldKey := iter.FieldKey()
@@ -739,6 +725,25 @@ func (s *Shard) validateSeriesAndFields(points []models.Point) ([]models.Point, 
 				},
 			})
 		}
+
+		// Check with the field validator.
+		if err := s.options.FieldValidator.Validate(mf, p); err != nil {
+			fieldsToCreate = fieldsToCreate[:nCreate]
+			switch err := err.(type) {
+			case PartialWriteError:
+				if reason == "" {
+					reason = err.Reason
+				}
+				dropped += err.Dropped
+				atomic.AddInt64(&s.stats.WritePointsDropped, int64(err.Dropped))
+			default:
+				return nil, nil, err
+			}
+			continue
+		}
+
+		points[j] = points[i]
+		j++
 	}
 
 	if dropped > 0 {
